@@ -639,6 +639,14 @@ def run_impl(d):
         xs = jarr(d["xs"])
         o = c.condition_on_x_u(xs, **ckw) if nn else c.condition_on_x(xs)
         obs_all(ob, o, d["ys"])
+        # cond(x) is condition_on_x(x); conditioning returns normalised densities; the conditional mean function
+        o2 = c(xs, **ckw)
+        chk(fails, ["C10", "C15", "C02"], "cond(x)(y) = condition_on_x(x).evaluate_ln(y)", site + "__call__", o2.evaluate_ln(jarr(d["ys"])), o.evaluate_ln(jarr(d["ys"])))
+        if not bool(np.all(np.asarray(o.is_normalized()))):
+            fails.append(fail(["C02"], "condition_on_x result does not report itself normalised", site + "condition_on_x"))
+        if not nn:
+            cm_ = np.asarray(c.get_conditional_mu(xs))
+            chk(fails, ["C15", "C17"], "get_conditional_mu = M x + b", site + "get_conditional_mu", cm_.reshape(-1, cm_.shape[-1]), np.asarray(o.mu))
         N = len(d["xs"])
         mus, Sigs = [], []
         for r in range(Rc):
